@@ -152,9 +152,11 @@ def correspond_tables(ctx, cases):
         fam = O1.FAMILY[mname]
         m = O1.make_mesh(mname, rng.randrange(10 ** 6))
         spec = rng.choice(VEC_ELEMS[fam])
-        elem = O1.make_elem(spec)
-        gs, cn, dim3 = _topo_terms(m)
         info = {'mesh': mname, 'elem': spec, 'nelements': int(m.nelements)}
+        elem = _run(ctx, 'tables:element', 'element construction', info, lambda: O1.make_elem(spec))
+        if elem is None:
+            continue
+        gs, cn, dim3 = _topo_terms(m)
         basis = _run(ctx, 'tables:basis', 'CellBasis construction', info, lambda: CellBasis(m, elem, intorder=1))
         if basis is None:
             continue
